@@ -182,6 +182,10 @@ func (m *Monitor) Built(r *chaingen.Run, b *chaingen.BlockCtx) bool {
 			return false
 		}
 		root, val, stk := st.IntermediateRoot(true)
+		if dbErr := st.Error(); dbErr != nil {
+			r.Violation("reexecution-db-error:"+chaingen.Normalise(dbErr.Error()), fmt.Sprintf("block %d: state database error during re-execution: %v", b.N, dbErr), r.Witness(b, nil))
+			return false
+		}
 		fp, err := fpOf(root, val, stk, res.Recs, res.UsedGas)
 		if err != nil {
 			r.Violation("receipt-not-encodable", err.Error(), r.Witness(b, nil))
@@ -191,13 +195,19 @@ func (m *Monitor) Built(r *chaingen.Run, b *chaingen.BlockCtx) bool {
 			first = fp
 			firstState = st
 			if d := built.diff(fp); d != "" {
-				firstStk := stkOf(st)
-				r.Violation("builder-vs-reexecution:"+d, fmt.Sprintf("block %d: re-executing the built block on a fresh state of the same parent (importer path, isSeal=false) differs from the builder's result in: %s", b.N, d), r.Witness(b, map[string]interface{}{"built": built.describe(), "reexecuted": fp.describe(), "staking_diff": mon.Diff(stkOf(b.Res.State), firstStk)}))
+				extra := map[string]interface{}{"built": built.describe(), "reexecuted": fp.describe()}
+				class := "builder-vs-reexecution:" + d
+				if c := evidenceClass(r, b, extra); c != "" {
+					class = c
+				} else {
+					extra["state_diff"] = firstN(mon.Diff(stkOf(b.Res.State), stkOf(st)), 12)
+				}
+				r.Violation(class, fmt.Sprintf("block %d: re-executing the built block on a fresh state of the same parent (importer path, isSeal=false) differs from the builder's result in: %s", b.N, d), r.Witness(b, extra))
 				return false
 			}
 		} else if d := first.diff(fp); d != "" {
 			firstStk := stkOf(firstState)
-			r.Violation("nondeterministic:"+d, fmt.Sprintf("block %d: repetition %d of the same block on the same parent differs from repetition 0 in: %s", b.N, rep, d), r.Witness(b, map[string]interface{}{"rep0": first.describe(), "rep": fp.describe(), "staking_diff": mon.Diff(firstStk, stkOf(st))}))
+			r.Violation("nondeterministic:"+d, fmt.Sprintf("block %d: repetition %d of the same block on the same parent differs from repetition 0 in: %s", b.N, rep, d), r.Witness(b, map[string]interface{}{"rep0": first.describe(), "rep": fp.describe(), "state_diff": firstN(mon.Diff(firstStk, stkOf(st)), 12)}))
 			return false
 		}
 	}
@@ -225,21 +235,8 @@ func (m *Monitor) Imported(r *chaingen.Run, b *chaingen.BlockCtx) bool {
 	if b.ImportErr != nil {
 		class := "import-rejected:" + chaingen.Normalise(b.ImportErr.Error())
 		extra := map[string]interface{}{}
-		// one anticipated cause gets its own class, decided by observation: evidence was handed to the
-		// builder, the builder changed the accused validator's record, but the header carries no SlashData
-		// for the importer to replay
-		if len(b.EvidenceVals) > 0 && len(b.Block.Header().SlashData) == 0 {
-			if pst, err := r.A.Chain.StateAt(b.Parent.Root(), b.Parent.ValRoot(), b.Parent.Header().StakingRoot); err == nil {
-				for _, t := range b.EvidenceVals {
-					before, after := pst.GetValidatorByMainAddr(t), b.Res.State.GetValidatorByMainAddr(t)
-					if before != nil && after != nil && (before.Expelled != after.Expelled || before.ExpelExpired != after.ExpelExpired || before.Status != after.Status) {
-						class = "import-rejected:evidence-applied-by-builder-but-absent-from-slashdata"
-						extra["accused_before"] = mon.ValString(before)
-						extra["accused_after_on_builder"] = mon.ValString(after)
-						extra["header_slashdata"] = "empty"
-					}
-				}
-			}
+		if c := evidenceClass(r, b, extra); c != "" {
+			class = c
 		}
 		r.Violation(class, fmt.Sprintf("block %d built by the builder path is rejected by InsertChain of an independent node: %v", b.N, b.ImportErr), r.Witness(b, extra))
 		return false
@@ -370,4 +367,27 @@ func runZeroSlash(c *kit.Ctx) {
 		run.Close()
 		c.End("zeroslash " + sig)
 	}
+}
+
+// evidenceClass recognises, by observation, the one anticipated cause of a builder/importer
+// divergence: evidence was handed to the builder, the builder changed the accused validator's record,
+// but the header carries no SlashData for an importer to replay.
+func evidenceClass(r *chaingen.Run, b *chaingen.BlockCtx, extra map[string]interface{}) string {
+	if len(b.EvidenceVals) == 0 || len(b.Block.Header().SlashData) != 0 {
+		return ""
+	}
+	pst, err := r.A.Chain.StateAt(b.Parent.Root(), b.Parent.ValRoot(), b.Parent.Header().StakingRoot)
+	if err != nil {
+		return ""
+	}
+	for _, t := range b.EvidenceVals {
+		before, after := pst.GetValidatorByMainAddr(t), b.Res.State.GetValidatorByMainAddr(t)
+		if before != nil && after != nil && (before.Expelled != after.Expelled || before.ExpelExpired != after.ExpelExpired || before.Status != after.Status) {
+			extra["accused_before"] = mon.ValString(before)
+			extra["accused_after_on_builder"] = mon.ValString(after)
+			extra["header_slashdata"] = "empty"
+			return "evidence-applied-by-builder-but-absent-from-slashdata"
+		}
+	}
+	return ""
 }
